@@ -266,6 +266,8 @@ def assemble(sess, sp, proof):
         if cn == proof.enforce and (not fs or not fs.contract.strip()): raise Broken('%s: enforced function %s has no contract' % (proof.name, cn))
         # a body verified together with the target keeps its loop contracts but its own pre/post are not used
         text = r['text']
+        if fs and proof.no_loop_contracts:
+            fs0 = specmod.FunctionSpec(cn); fs0.loops = {}; fs0.ghost = fs.ghost; fs0.contract = fs.contract; fs = fs0
         if cn != proof.enforce and fs:
             fs2 = specmod.FunctionSpec(cn); fs2.loops = fs.loops; fs2.ghost = fs.ghost; fs2.contract = ''
             text = splice(text, fs2, r['loops'])
@@ -295,7 +297,7 @@ def assemble(sess, sp, proof):
     for k, l in enumerate(lines):
         if l.startswith('#line ') and l.endswith('"proof.c"'): lines[k] = '#line %d "proof.c"' % (k + 2)
     a.text = '\n'.join(lines)
-    a.loops_with_contract = sum(len(sp.functions[b[0]].loops) for b in bodies if b[0] in sp.functions)
+    a.loops_with_contract = 0 if proof.no_loop_contracts else sum(len(sp.functions[b[0]].loops) for b in bodies if b[0] in sp.functions)
     return a
 
 
